@@ -56,6 +56,9 @@ pub fn run(ctx: &Ctx) -> (Report, PropertyMeta) {
     report.merge(run_random(ctx, "schedule06", n / 2, 40..=200, |s| gen_sched(s, true), |c| sched_outcome(c, true)));
     report.sections.push(json!({"part": "random schedule strings (generic, fairness-focused, with stale wakes)", "cases": n * 2 + n / 2}));
 
+    if t == Tier::Thorough {
+        crate::fuzzing::campaign(ctx, &mut report, "fq", 240);
+    }
     let total = report.evaluations;
     health(&mut report, "wake-or-insert-inside-window", total, 50);
     health(&mut report, "two-busy-streams", total, 50);
